@@ -197,7 +197,12 @@ fn random_market_history(rng: &mut Xoroshiro128StarStar, len: usize, toggles: bo
     let mut ops = vec![];
     let mut t = 0u64;
     for _ in 0..len {
-        t += rng.gen_range(1..3);
+        // the clock normally advances; now and then it is restarted at an earlier time (a stand-alone book simply takes the new time, so must every asset)
+        if t > 6 && rng.gen_range(0..25) == 0 {
+            t -= rng.gen_range(1..6);
+        } else {
+            t += rng.gen_range(1..3);
+        }
         ops.push(MOp::SetTime { t });
         let r = rng.gen_range(0..100);
         let asset = rng.gen_range(0..A);
